@@ -21,7 +21,17 @@ type Pruned struct {
 // Prune deletes every CFG edge whose condition is an assumed atom with the contradicting polarity and
 // computes the blocks reachable from entry. Unknown conditions keep both edges (over-approximation).
 func (an *Analysis) Prune(fn *ssa.Function, assume Assume) *Pruned {
+	return an.PruneForced(fn, assume, nil)
+}
+
+// PruneForced is Prune with a case split on control flow: force maps a block index to the index of the only
+// predecessor edge through which that block may be entered, so that all phis of the block take their value from that
+// edge (correlated phis such as `v` and `vIsSet` are then evaluated consistently).
+func (an *Analysis) PruneForced(fn *ssa.Function, assume Assume, force map[int]int) *Pruned {
 	pr := &Pruned{Fn: fn, LiveBlock: map[int]bool{}, liveEdge: map[[2]int]bool{}, Used: map[string]bool{}}
+	if assume == nil && force != nil {
+		assume = func(*Atom) (bool, bool) { return false, false }
+	}
 	if len(fn.Blocks) == 0 {
 		return pr
 	}
@@ -50,6 +60,9 @@ func (an *Analysis) Prune(fn *ssa.Function, assume Assume) *Pruned {
 				continue
 			}
 			for _, s := range succLive(b) {
+				if pi, ok := force[s.Index]; ok && (pi >= len(s.Preds) || s.Preds[pi] != b) {
+					continue // the block may be entered through the forced edge only
+				}
 				e := [2]int{b.Index, s.Index}
 				if !pr.liveEdge[e] {
 					pr.liveEdge[e] = true
